@@ -157,6 +157,29 @@ def class_name(v: Any) -> str:
 	return t.__name__
 
 
+def generic_contexts(tree: ast.Module) -> list[tuple[int, int]]:
+	"""line ranges in which a type variable is a free variable: the bodies of classes whose bases mention one (`Generic[T]`,
+	`Holder[T]`) and of functions whose signature mentions one. Everywhere else an inferred type that still mentions a type variable
+	is wrong: the value has a concrete type there."""
+	import re
+	tvars = {t.id for n in tree.body if isinstance(n, ast.Assign) and isinstance(n.value, ast.Call) and isinstance(n.value.func, ast.Name)
+		and n.value.func.id == 'TypeVar' for t in n.targets if isinstance(t, ast.Name)}
+	if not tvars:
+		return []
+	pat = re.compile(r'\b(' + '|'.join(map(re.escape, sorted(tvars))) + r')\b')
+
+	def mentions(*nodes: ast.AST | None) -> bool:
+		return any(n is not None and pat.search(ast.unparse(n)) for n in nodes)
+
+	out = []
+	for n in ast.walk(tree):
+		if isinstance(n, ast.ClassDef) and mentions(*n.bases):
+			out.append((n.lineno, n.end_lineno or n.lineno))
+		elif isinstance(n, ast.FunctionDef) and mentions(n.returns, *(a.annotation for a in [*n.args.args, *n.args.kwonlyargs])):
+			out.append((n.lineno, n.end_lineno or n.lineno))
+	return out
+
+
 class Run:
 	"""instrumented execution of one program"""
 
@@ -170,6 +193,11 @@ class Run:
 			if isinstance(n, (ast.For, ast.comprehension)):
 				names = {t.id for t in ast.walk(n.target) if isinstance(t, ast.Name)}
 				self.binders.append((n, names, n.iter))
+		self.generic_ranges = generic_contexts(tree)
+		# class -> (base names, the lines of the class lie in a generic context, names of its methods)
+		self.class_info = {n.name: ([b.id if isinstance(b, ast.Name) else b.value.id if isinstance(b, ast.Subscript) and isinstance(b.value, ast.Name) else '' for b in n.bases],
+			any(lo == n.lineno for lo, _ in self.generic_ranges), {m.name for m in n.body if isinstance(m, ast.FunctionDef)}, [ast.unparse(b) for b in n.bases])
+			for n in ast.walk(tree) if isinstance(n, ast.ClassDef)}
 		self.instr = _Instr()
 		tree = ast.fix_missing_locations(self.instr.visit(tree))
 		self.code = compile(tree, '<c03-program>', 'exec')
@@ -327,7 +355,8 @@ def op_name(n: ast.AST) -> str:
 
 # failing input classes listed as known findings (the other names computed below are repaired: listed as fixed)
 UNDERSTOOD = {'dict-get-missing-key', 'list-literal-class-dedup', 'union-of-subclasses-attribute', 'ternary-union-of-containers',
-	'tuple-slice-nonliteral-bounds', 'abs-of-bool', 'min-max-mixed-numeric', 'list-of-dict-items', 'boolop-nonbool-operands', 'explicit-init-call'}
+	'tuple-slice-nonliteral-bounds', 'abs-of-bool', 'min-max-mixed-numeric', 'list-of-dict-items', 'boolop-nonbool-operands', 'explicit-init-call',
+	'generic-method-on-indirect-subclass', 'generic-method-nested-type-argument'}
 
 CONTAINER_HEADS = ('list', 'dict', 'tuple')
 
@@ -351,7 +380,8 @@ GENERIC_OF_UNION = re.compile(r'(list|dict|tuple|Iterator|ItemsView|Pair)<[^<>]*
 
 
 def canonical_key(raw: str, site: dict[str, Any], real: str, runtime: list[str], kids: list[tuple[dict[str, Any], str]],
-		descendants: list[tuple[dict[str, Any], str]], message: str, binder_reals: list[str], class_names: set[str] = frozenset()) -> str:  # type: ignore[assignment]
+		descendants: list[tuple[dict[str, Any], str]], message: str, binder_reals: list[str], class_names: set[str] = frozenset(),  # type: ignore[assignment]
+		class_info: dict[str, tuple[list[str], bool, set[str], list[str]]] | None = None) -> str:
 	"""A stable name for a failing input class that is already understood (the predicate is on the failing site itself:
 	node kind, operator, inferred operand types); otherwise the structural key."""
 	n = site['node']
@@ -378,6 +408,19 @@ def canonical_key(raw: str, site: dict[str, Any], real: str, runtime: list[str],
 			return 'tuple-slice' if literal(n.slice.lower) and literal(n.slice.upper) and n.slice.step is None else 'tuple-slice-nonliteral-bounds'
 		if isinstance(n, ast.Call) and isinstance(n.func, ast.Attribute) and n.func.attr == '__init__' and 'None' in runtime:
 			return 'explicit-init-call'
+		if isinstance(n, ast.Call) and isinstance(n.func, ast.Attribute) and class_info and kid_real and kid_real[0].split('<')[0] in class_info:
+			# a method of a generic class that returns its type variable, called on a non-generic descendant
+			recv = kid_real[0].split('<')[0]
+			cls, depth, below = recv, 0, recv
+			while cls in class_info and n.func.attr not in class_info[cls][2] and class_info[cls][0]:
+				below, cls, depth = cls, class_info[cls][0][0], depth + 1
+			if cls in class_info and n.func.attr in class_info[cls][2] and class_info[cls][1]:
+				if depth >= 2 and recv in real:
+					# two or more levels below: the type variable is bound to the receiver class
+					return 'generic-method-on-indirect-subclass'
+				if depth == 1 and any(b.count('[') >= 2 for b in class_info[below][3]):
+					# `class F(H[list[int]])`: the type variable is bound to the innermost argument
+					return 'generic-method-nested-type-argument'
 		if isinstance(n, ast.Call) and isinstance(n.func, ast.Name) and n.func.id == 'abs' and kid_real == ['bool']:
 			return 'abs-of-bool'
 		if isinstance(n, ast.Call) and isinstance(n.func, ast.Name) and n.func.id in ('min', 'max') and len(set(kid_real)) > 1 \
@@ -442,7 +485,8 @@ def compare(run: Run, refl: Any, module: Any) -> tuple[list[dict[str, Any]], dic
 		origin, message = '', ''
 		try:
 			r0 = refl.type_of(node)
-			if has_template(r0):
+			if has_template(r0) and any(lo <= site['span'][0] <= hi for lo, hi in run.generic_ranges):
+				# inside a generic class / function the type variable is free: nothing determined to compare
 				stats['template'] = stats.get('template', 0) + 1
 				continue
 			real = r0.pretty
@@ -550,7 +594,7 @@ def compare(run: Run, refl: Any, module: Any) -> tuple[list[dict[str, Any]], dic
 						if rj is not None:
 							binder_reals.append(rj)
 						binder_reals.extend(r for _, r in ((run.instr.sites[k], real_at(k)) for k in descendants_of(j)) if r is not None)
-		key = canonical_key(raw, run.instr.sites[root] if site['kind'] == 'decl' else site, b['real'], b['runtime'], kids, desc, b.get('message', ''), binder_reals, run.class_names)
+		key = canonical_key(raw, run.instr.sites[root] if site['kind'] == 'decl' else site, b['real'], b['runtime'], kids, desc, b.get('message', ''), binder_reals, run.class_names, run.class_info)
 		if b['why'] == 'raises' and key == raw:
 			# inference fails here because a sub-expression was already mis-typed: the finding belongs to that cause
 			causes = [key_of[j] for j in descendants_of(root) if j in key_of]
